@@ -54,10 +54,40 @@ def rust_items(text):
     return items
 
 
-def run_plugin(plugin, out):
+def run_plugin(plugin, out, hashseed=None):
+    env = dict(os.environ)
+    if hashseed is not None:
+        env["PYTHONHASHSEED"] = str(hashseed)
     p = subprocess.run([sys.executable, "-B", "-m", "generator", "--plugin", plugin, "--output-dir", str(out), "--test-dir", str(out / "_tests")],
-                       cwd=str(REPO), capture_output=True, text=True)
+                       cwd=str(REPO), capture_output=True, text=True, env=env)
     return p.returncode, (p.stdout + p.stderr)[-2000:]
+
+
+def hashseed_variants(d, seeds, primary):
+    """The committed file must be what the generator emits under every hash seed: run both plugins under
+    each extra seed and report the first item where the emitted text differs from the primary run."""
+    from concurrent.futures import ThreadPoolExecutor
+    rel = {"python": "lsprotocol/types.py", "rust": "lsprotocol/src/lib.rs"}
+
+    def one(job):
+        plugin, seed = job
+        out = d / f"hs-{plugin}-{seed}"
+        rc, log = run_plugin(plugin, out, seed)
+        if rc != 0:
+            return {"plugin": plugin, "seed": seed, "error": log[-600:]}
+        txt = (out / rel[plugin]).read_text(encoding="utf-8")
+        shutil.rmtree(out, ignore_errors=True)
+        if txt == primary[plugin]:
+            return None
+        a = py_items(primary[plugin]) if plugin == "python" else rust_items(primary[plugin])
+        b = py_items(txt) if plugin == "python" else rust_items(txt)
+        i = next((k for k, (x, y) in enumerate(zip(a, b)) if x != y), min(len(a), len(b)))
+        return {"plugin": plugin, "seed": seed, "index": i, "primary_item": a[i][:1500] if i < len(a) else None,
+                "variant_item": b[i][:1500] if i < len(b) else None}
+
+    jobs = [(pl, s) for s in seeds for pl in ("python", "rust") if pl in primary]
+    with ThreadPoolExecutor(max_workers=8) as ex:
+        return [r for r in ex.map(one, jobs) if r]
 
 
 def rustfmt(path):
@@ -75,6 +105,8 @@ def rustfmt(path):
 def main():
     d = pathlib.Path(tempfile.mkdtemp(prefix="lspverif-c05-"))
     res = {"errors": []}
+    primary = {}
+    seeds = [int(x) for x in os.environ.get("VERIF_HASHSEEDS", "").split(",") if x.strip()]
     try:
         rc, log = run_plugin("python", d / "py")
         committed_py = (REPO / "packages/python/lsprotocol/types.py").read_text(encoding="utf-8")
@@ -82,12 +114,14 @@ def main():
             res["errors"].append("python plugin failed: " + log)
         else:
             fresh_py = (d / "py/lsprotocol/types.py").read_text(encoding="utf-8")
+            primary["python"] = fresh_py
             res["py"] = {"committed": py_items(committed_py), "fresh": py_items(fresh_py)}
         rc, log = run_plugin("rust", d / "rs")
         committed_rs_path = REPO / "packages/rust/lsprotocol/src/lib.rs"
         if rc != 0:
             res["errors"].append("rust plugin failed: " + log)
         else:
+            primary["rust"] = (d / "rs/lsprotocol/src/lib.rs").read_text(encoding="utf-8")
             fresh, err = rustfmt(d / "rs/lsprotocol/src/lib.rs")
             tmp = d / "committed_lib.rs"
             shutil.copy(committed_rs_path, tmp)
@@ -99,6 +133,8 @@ def main():
                 res["rust"] = {"committed": rust_items(comm_raw), "fresh": rust_items(fresh),
                                "committed_is_formatted": comm_fmt.strip() == comm_raw.strip(),
                                "bytes_identical": fresh.strip() == comm_raw.strip()}
+        res["hashseeds"] = seeds
+        res["hashseed_variants"] = hashseed_variants(d, seeds, primary) if seeds else []
     finally:
         shutil.rmtree(d, ignore_errors=True)
     json.dump(res, sys.stdout)
